@@ -21,16 +21,18 @@ namespace Fc
 
 /-! ### `np.isclose` on finite binary64 values (units) -/
 
+/-- right-hand side of `np.isclose` for `|b| = m`: `atol + rtol * |b|` (two binary64 roundings;
+    an overflowing value is `+inf` = `none`) -/
+def iscloseThr (atol rtol m : Nat) : Option Nat :=
+  match rndMag f64 (rtol * m) UNIT with
+  | none => none
+  | some p => rndMag f64 (atol + p) 0
+
 /-- `np.isclose(a, b, atol=atol, rtol=rtol)`: `|a - b| <= atol + rtol * |b|`, every operation
     rounded to binary64 (`a - b`, `rtol * |b|`, `atol + …`); an overflowing right-hand side is
     `+inf` (comparison true). Note the asymmetry in `b`. -/
 def isclose (atol rtol : Nat) (a b : Int) : Bool :=
-  let d := rndMag f64 (a - b).natAbs 0
-  let thr : Option Nat :=
-    match rndMag f64 (rtol * b.natAbs) UNIT with
-    | none => none
-    | some p => rndMag f64 (atol + p) 0
-  leInf d thr
+  leInf (rndMag f64 (a - b).natAbs 0) (iscloseThr atol rtol b.natAbs)
 
 /-! ### `get_adjacent_fuzzy_equal_indices` -/
 
